@@ -190,6 +190,7 @@ class LayoutFn:
         self.alias = {}
         self.segvec = {}          # reader: local vector decl -> canonical SEGV name
         self._ph = set()          # locals currently rendered as placeholders (guarded-value evaluation)
+        self.bound = {}           # locals whose value is known from outside (a word read from a file: the value the writer put there)
         self._hdepth = 0
         self.prescan()
 
@@ -389,6 +390,8 @@ class LayoutFn:
                     raise Unknown("cursor '%s' used as a value in '%s'" % (n["n"], render(n)))
                 if d in self._ph:
                     return norm_c05.GVEval.ph(d)
+                if d in self.bound:
+                    return self.bound[d]
                 if self.const_local(d):
                     return c(self.decl[d]["init"])
                 v = self.decl.get(d)
@@ -3308,7 +3311,7 @@ def check_entry_coordinates(ck, facts):
 # clause 4: checkpoints — append-writers vs offset-readers of byte streams
 # -------------------------------------------------------------------------------------------------
 
-INT_WIDTH = {"int": 4, "unsigned int": 4, "long": 8, "unsigned long": 8, "std::uint64_t": 8, "std::size_t": 8, "size_t": 8, "short": 2, "unsigned short": 2,
+INT_WIDTH = {"u64": 8, "int": 4, "unsigned int": 4, "long": 8, "unsigned long": 8, "std::uint64_t": 8, "std::size_t": 8, "size_t": 8, "short": 2, "unsigned short": 2,
              "std::uint32_t": 4, "std::int32_t": 4, "std::int64_t": 8, "FEAT::Index": 8, "Index": 8, "std::streamsize": 8, "char": 1}
 
 
@@ -4247,6 +4250,299 @@ def check_meta_checkpoints(ck, facts):
             else:
                 ck.ob("E12.length-width", key, True, "the length word is used in the offset arithmetic at its full width", r.file, reads[0]["line"])
 
+
+
+# -------------------------------------------------------------------------------------------------
+# clause 4c: combined files (DistFileIO::write_combined / read_combined) - sequential stream layout
+# -------------------------------------------------------------------------------------------------
+
+FILE_XFER = {"MPI_File_write_shared": ("w", "shared"), "MPI_File_write_ordered": ("w", "ordered"), "MPI_File_write_all": ("w", "all"), "MPI_File_write": ("w", "own"),
+             "MPI_File_read_shared": ("r", "shared"), "MPI_File_read_ordered": ("r", "ordered"), "MPI_File_read_all": ("r", "all"), "MPI_File_read": ("r", "own")}
+FILE_HARMLESS = ("is_open", "good", "close", "open", "fail", "bad", "eof", "flush", "rdbuf", "imbue", "exceptions", "clear")
+
+
+class FileSeq(LayoutFn):
+    """Sequential file layout of one routine: the ordered transfers (header / parameter vectors / words) with their byte counts and guards.
+    The file position only advances by the transfers; any other use of the file object (seek, helper, loop) is analysis-incomplete."""
+
+    def __init__(self, fn, side, hsub=None, peer=None):
+        LayoutFn.__init__(self, fn, side, hsub)
+        self.cursors = set()
+        self.events = []
+        self.sizes = {}        # canonical vector -> canonical size after a resize in this routine
+        self.guards = []
+        self.peer = peer or []     # reader: the writer's events (words read from the file are bound to what the writer put there)
+        self.files = set()
+        for d, v in self.decl.items():
+            t = fn.type(v.get("t")) or ""
+            if re.search(r"\b(std::)?(basic_)?[io]?fstream\b|^std::(ofstream|ifstream|fstream)$|^MPI_File$|ompi_file_t", t):
+                self.files.add(d)
+
+    def is_file(self, n):
+        n = strip_cast(n)
+        return n is not None and n.get("k") == "Ref" and n.get("d") in self.files
+
+    def mentions_file(self, n):
+        return any(x.get("k") == "Ref" and x.get("d") in self.files for x in walk(n))
+
+    def canon(self, n, lv=None):
+        n0 = strip_cast(n)
+        if n0 is not None and n0.get("k") == "MCall" and n0.get("n") == "size" and not n0.get("a") and n0.get("obj") is not None:
+            o = strip_cast(n0["obj"])
+            if o.get("k") == "Ref" and o.get("d") in self.roots and o.get("dk") == "local" and self.assigned.get(o["d"], 0) == 0:
+                # size of the local header vector: the extent it is constructed with
+                ini = self.decl.get(o["d"], {}).get("init")
+                if ini is not None and ini.get("k") in ("Construct", "TempObj") and ini.get("a") and not any(
+                        x.get("k") == "MCall" and x.get("n") in ("resize", "push_back", "insert", "assign", "clear") and strip_cast(x.get("obj")).get("d") == o["d"] for x in self.fn.nodes() if x.get("obj") is not None):
+                    return LayoutFn.canon(self, ini["a"][0], lv)
+            if o.get("k") == "Ref" and o.get("dk") == "param" and is_char_vector(self.ptype.get(o.get("d"))):
+                key = LayoutFn.canon(self, o, lv)
+                if key in self.sizes:
+                    return self.sizes[key]
+                if self.side == "r":
+                    # the size of a parameter vector that was not resized is whatever the caller passed: not a quantity of the file
+                    return "entry{#%s}" % key
+        return LayoutFn.canon(self, n, lv)
+
+    def count_text(self, n):
+        """canonical byte count (the size of a vector that was resized in this routine is the size it was given)"""
+        return self.canon(n)
+
+    def what_of(self, ptr):
+        """the object a transfer moves: ('header', root) / ('param', index) / ('word', decl) / None"""
+        p = through_consts(self.fn, ptr)
+        if p is None:
+            return None
+        if p.get("k") == "MCall" and p.get("n") == "data" and not p.get("a"):
+            o = strip_cast(p.get("obj"))
+            if o.get("k") == "Ref" and o.get("dk") == "param":
+                return ("param", self.params.get(o["d"], -1), o.get("n"))
+            if o.get("k") == "Ref" and o.get("d") in self.roots:
+                return ("header", o["d"], o.get("n"))
+        if p.get("k") == "Un" and p.get("op") == "&" and strip_cast(p["e"]).get("k") == "Ref" and strip_cast(p["e"]).get("dk") == "local":
+            return ("word", strip_cast(p["e"])["d"], strip_cast(p["e"]).get("n"))
+        return None
+
+    def own_guard(self, cond_text, parts, count):
+        """is the guard the non-emptiness of the transferred byte count itself?  (a transfer of zero bytes is no transfer)"""
+        return parts is not None and parts == count
+
+    def nonempty_subject(self, c, pol):
+        """(c == pol) asserts `count > 0` -> canonical count, else None"""
+        c = through_consts(self.fn, c)
+        if c is None:
+            return None
+        if c.get("k") == "Un" and c.get("op") == "!":
+            return self.nonempty_subject(c["e"], not pol)
+        if c.get("k") == "MCall" and c.get("n") == "empty" and not c.get("a"):
+            return self.count_text({"k": "MCall", "n": "size", "obj": c.get("obj"), "a": [], "callee": "size"}) if not pol else None
+        if c.get("k") == "Bin" and c.get("op") in (">", "!=", "<", "=="):
+            l, r = c["lhs"], c["rhs"]
+            if c["op"] == "<":
+                l, r = r, l
+            if is_zero(r) and ((c["op"] in (">", "<", "!=") and pol) or (c["op"] == "==" and not pol)):
+                return self.count_text(l)
+            if is_zero(l) and c["op"] in ("!=",) and pol:
+                return self.count_text(r)
+        return None
+
+    def walk_stmts(self, stmts):
+        for s_ in stmts:
+            k = s_.get("k")
+            if k == "Block":
+                self.walk_stmts(s_.get("s", []))
+            elif k == "If":
+                if not (self.mentions_file(s_.get("then")) or (s_.get("else") is not None and self.mentions_file(s_["else"])) or
+                        any(x.get("k") == "MCall" and x.get("n") == "resize" for x in walk(s_))):
+                    continue
+                def conjuncts(c, want):
+                    """(c == want) as a list of (text, polarity, non-emptiness subject): `a && b` true and `a || b` false split into their parts"""
+                    c0 = through_consts(self.fn, c)
+                    if c0 is not None and c0.get("k") == "Un" and c0.get("op") == "!":
+                        return conjuncts(c0["e"], not want)
+                    if c0 is not None and c0.get("k") == "Bin" and ((c0.get("op") == "&&" and want) or (c0.get("op") == "||" and not want)):
+                        return conjuncts(c0["lhs"], want) + conjuncts(c0["rhs"], want)
+                    ne_ = self.nonempty_subject(c, want)
+                    if ne_ is not None:
+                        return [("nonempty{%s}" % ne_, True, ne_)]      # `!v.empty()`, `n > 0`, `n != 0` are one condition
+                    t_, p_ = self.norm_cond(c0 if c0 is not None else c)
+                    return [(t_, p_ == want, None)]
+                for br, bp in ((s_.get("then"), True), (s_.get("else"), False)):
+                    if br is None:
+                        continue
+                    gs = conjuncts(s_["c"], bp)
+                    self.guards.extend(gs)
+                    self.walk_stmts(stmts_of(br))
+                    del self.guards[len(self.guards) - len(gs):]
+            elif k in ("For", "While", "Do", "ForRange", "Switch", "Try"):
+                if self.mentions_file(s_):
+                    raise Unknown("%s statement at line %s uses the file" % (k, s_.get("l")))
+            else:
+                self.stmt(s_)
+
+    def stmt(self, s_):
+        for x in walk(s_):
+            kind = None
+            if x.get("k") == "MCall" and self.is_file(x.get("obj")):
+                if x.get("n") in ("write", "read") and len(x.get("a", [])) == 2:
+                    kind = ("w" if x["n"] == "write" else "r", "stream", x["a"][0], x["a"][1])
+                elif x.get("n") == "ignore" and len(x.get("a", [])) >= 1 and self.side == "r":
+                    kind = ("r", "stream", None, x["a"][0])      # bytes skipped by the reader
+                elif x.get("n") in FILE_HARMLESS:
+                    continue
+                else:
+                    raise Unknown("the file position is changed / used by '%s', which the analysis does not model" % render(x)[:70])
+            elif x.get("k") == "Call" and x.get("callee") in FILE_XFER and len(x.get("a", [])) >= 3 and self.is_file(x["a"][0]):
+                kind = FILE_XFER[x["callee"]] + (x["a"][1], x["a"][2])
+            elif x.get("k") == "Call" and any(self.is_file(a_) or (strip_cast(a_).get("k") == "Un" and self.is_file(strip_cast(a_).get("e"))) for a_ in x.get("a", [])):
+                cal = x.get("callee") or ""
+                if re.match(r"^MPI_File_(open|close|set_size|sync|get_size|set_errhandler)$", cal) or strip_targs(cal) == "FEAT::assertion":
+                    continue
+                raise Unknown("the file is handed to '%s', which the analysis does not model" % render(x)[:70])
+            elif x.get("k") == "MCall" and x.get("n") == "resize" and x.get("a"):
+                o = strip_cast(x.get("obj")) if x.get("obj") is not None else None
+                if o is not None and o.get("k") == "Ref" and o.get("dk") == "param":
+                    self.sizes[self.canon(o)] = self.canon(x["a"][0])
+                continue
+            if kind is None:
+                continue
+            direction, mode, ptr, cnt = kind
+            what = self.what_of(ptr) if ptr is not None else None
+            if what is None:
+                # bytes of some other object (padding, a scratch area that is skipped): they occupy the file all the same
+                what = ("other", None, render(strip_cast(ptr))[:30] if ptr is not None else "skipped")
+            count = self.count_text(cnt)
+            guards = [(t, p_) for t, p_, ne in self.guards if ne is None or ne != count]
+            ev = {"dir": direction, "mode": mode, "what": what, "count": count, "guards": guards, "line": x.get("l"), "sym": self.sym_count(cnt)}
+            if what[0] == "word":
+                if direction == "w":
+                    ev["value"] = self.canon({"k": "Ref", "dk": "local", "d": what[1], "n": what[2]})
+                else:
+                    j = len(self.events)
+                    pe = self.peer[j] if j < len(self.peer) else None
+                    if pe is not None and pe["what"][0] == "word" and pe.get("value") is not None:
+                        self.bound[what[1]] = pe["value"]
+                        self.__dict__.pop("_gv_cache", None)
+            self.events.append(ev)
+
+    def sym_count(self, cnt):
+        try:
+            t = self.count_text(cnt)
+            if re.match(r"^\d+$", t):
+                return sp.Integer(int(t))
+            return symbol(t)
+        except Unknown:
+            return None
+
+
+def xfer_text(e):
+    if e is None:
+        return "<nothing>"
+    g = " if " + " and ".join("%s%s" % ("" if p_ else "not ", t) for t, p_ in e["guards"]) if e["guards"] else ""
+    return "%s %s bytes of %s '%s'%s (line %s)" % ({"w": "writes", "r": "reads"}[e["dir"]] + ("" if e["mode"] == "stream" else " [" + e["mode"] + "]"),
+                                                 e["count"], e["what"][0], e["what"][2], g, e["line"])
+
+
+def check_combined_files(ck, facts, variant):
+    """DistFileIO::write_combined / read_combined(std::vector<char>&, std::vector<char>&, ...): the reader consumes exactly the sequence of
+    blocks the writer emits - same order, same byte counts (header words the reader takes its counts from bound to what the writer stored
+    there), same access mode (shared / ordered) and guards, k-th payload parameter to k-th payload parameter - and the header words the
+    reader requires are the ones written; serial variant: the file-size word covers the bytes written"""
+    R = "E12.combined-file"
+    pick = {}
+    for f in facts.functions:
+        if f.tk == "pattern" or f.name not in ("write_combined", "read_combined") or len(f.params) < 3:
+            continue
+        if is_char_vector(f.type(f.params[0]["t"])) and is_char_vector(f.type(f.params[1]["t"])):
+            pick[f.name] = f
+    w, r = pick.get("write_combined"), pick.get("read_combined")
+    if w is None or r is None:
+        ck.incomplete(R, "%s: DistFileIO::write_combined / read_combined(std::vector<char>&, ...) not found" % variant)
+        return
+    want = stream_inline_for(w)
+    w = norm_c05.normalized(facts, w, inline=want, algorithms=False, loops=False)
+    r = norm_c05.normalized(facts, r, inline=stream_inline_for(r), algorithms=False, loops=False)
+    try:
+        W = FileSeq(w, "w")
+        W.walk_stmts(stmts_of(w.body))
+        hdr = {}
+        for n in w.nodes():
+            if n.get("k") == "Assign" and n.get("op") == "=":
+                a = W.access(n["lhs"], resolve=False)
+                if a is not None and strip_cast(a["idx"]).get("k") == "Int":
+                    k_ = int(strip_cast(a["idx"])["v"])
+                    if k_ in hdr:
+                        raise Unknown("header word %d is stored twice" % k_)
+                    hdr[k_] = {"canon": W.canon(n["rhs"]), "node": strip_cast(n["rhs"]), "line": n.get("l"), "unit": a["unit"]}
+        # the reader's own parameters: the same names as the writer's where the parameter has the same name (communicator, root rank);
+        # its payload vectors are distinct quantities ($r0, $r1) - what they hold is what the routine reads into them
+        wnames = {p_["n"]: i_ for i_, p_ in enumerate(w.params) if p_["n"]}
+        rpsub = {}
+        for i_, p_ in enumerate(r.params):
+            if is_char_vector(r.type(p_["t"])) or not p_["n"] or p_["n"] not in wnames:
+                rpsub[i_] = "$r%d" % i_
+            else:
+                rpsub[i_] = "$p%d" % wnames[p_["n"]]
+        Rd = FileSeq(r, "r", {k_: h["canon"] for k_, h in hdr.items()}, peer=W.events)
+        Rd.psub = rpsub
+        Rd.walk_stmts(stmts_of(r.body))
+    except Unknown as e:
+        ck.incomplete(R, "%s: %s" % (variant, e))
+        return
+    we, re_ = W.events, Rd.events
+    if not we or not re_:
+        ck.incomplete(R, "%s: no file transfers recognised in %s" % (variant, "write_combined" if not we else "read_combined"))
+        return
+    for i in range(max(len(we), len(re_))):
+        a = we[i] if i < len(we) else None
+        b = re_[i] if i < len(re_) else None
+        base = a or b
+        key = "%s/block%d:%s" % (variant, i, base["what"][0] if base["what"][0] != "param" else "payload%d" % base["what"][1])
+        if a is None or b is None:
+            ck.ob(R, key, False, "the writer emits %s; the reader consumes %s at this position of the file" % (xfer_text(a), xfer_text(b)) +
+                  ("" if b is not None else ": these bytes stay in front of whatever the reader takes next"), (w if a else r).file, base["line"])
+            break
+        diffs = []
+        if a["what"][0] != b["what"][0] or (a["what"][0] == "param" and a["what"][1] != b["what"][1]):
+            diffs.append("object: writer %s '%s' / reader %s '%s'" % (a["what"][0], a["what"][2], b["what"][0], b["what"][2]))
+        if a["count"] != b["count"]:
+            diffs.append("bytes: writer %s / reader %s" % (a["count"], b["count"]))
+        if a["mode"] != b["mode"]:
+            diffs.append("access: writer %s / reader %s" % (a["mode"], b["mode"]))
+        for e_, fn_, L_ in ((a, w, W), (b, r, Rd)):
+            if e_["what"][0] == "word" and re.match(r"^\d+$", e_["count"]):
+                wd = INT_WIDTH.get(re.sub(r"^const\s+", "", fn_.type(L_.decl.get(e_["what"][1], {}).get("t")) or ""))
+                if wd is not None and wd != int(e_["count"]):
+                    diffs.append("%s bytes are moved through the %d-byte variable '%s'" % (e_["count"], wd, e_["what"][2]))
+        if sorted(a["guards"]) != sorted(b["guards"]):
+            diffs.append("condition: writer [%s] / reader [%s]" % ("; ".join("%s%s" % ("" if p_ else "not ", t) for t, p_ in a["guards"]), "; ".join("%s%s" % ("" if p_ else "not ", t) for t, p_ in b["guards"])))
+        ck.ob(R, key, not diffs, ("; ".join(diffs) + "  [%s | %s]" % (xfer_text(a), xfer_text(b)) + " (first divergence; later blocks are not compared)") if diffs else xfer_text(a) + " = " + xfer_text(b),
+              r.file, b["line"], sample={"writer": xfer_text(a), "reader": xfer_text(b)})
+        if diffs:
+            break
+    # header words the reader requires / uses
+    bel = header_beliefs(Rd)
+    for k_ in sorted(bel):
+        key = "%s/header-word%d" % (variant, k_)
+        wh = hdr.get(k_)
+        if wh is None:
+            ck.ob(R, key, False, "read_combined uses header word %d, which write_combined never stores" % k_, r.file, bel[k_][0][2])
+            continue
+        bad = ["reader requires it to equal %s, writer stores %s" % (val, wh["canon"]) for kind, val, l in bel[k_] if kind == "equals" and val != wh["canon"]]
+        ck.ob(R, key, not bad, "; ".join(bad) or "writer stores %s" % wh["canon"], r.file, bel[k_][0][2], trivial=not any(kind == "equals" for kind, _, _ in bel[k_]))
+    # the file-size word covers what is written (evaluable for the serial writer)
+    if 1 in hdr:
+        try:
+            tot = W.sym(hdr[1]["node"], State())
+            syms = [e["sym"] for e in we]
+            if all(x is not None for x in syms) and all(e["mode"] == "stream" for e in we):
+                written = sum(syms, sp.Integer(0))
+                if not seq(tot - written) and any(e["guards"] for e in we):
+                    ck.incomplete(R, "%s/file-size-word: header word 1 = %s, bytes written = %s with some blocks written under conditions; not compared" % (variant, sp.sstr(sp.expand(tot)), sp.sstr(written)))
+                else:
+                    ck.ob(R, "%s/file-size-word" % variant, seq(tot - written), "header word 1 = %s; bytes written = %s" % (sp.sstr(sp.expand(tot)), sp.sstr(written)), w.file, hdr[1]["line"])
+        except Unknown:
+            pass
 
 # -------------------------------------------------------------------------------------------------
 # clause 5: Pack — case tables, conversion loops, argument roles
@@ -5486,6 +5782,11 @@ def declare_rules(ck, thorough):
     ck.rule("E12.checkpoint-layout", "CheckpointControl: the record [u64 id length][id][u64 data length][data] appended per object is the one _restore_checkpoint_data walks "
             "(offsets, widths, stride) and restore_object slices; the collected length equals the bytes appended; save/load(BinaryStream) frame the same number of bytes; "
             "breaks for: two or more objects in one checkpoint, or an object whose last byte is significant", 10)
+    ck.rule("E12.combined-file", "DistFileIO::write_combined / read_combined (the file behind CheckpointControl::save/load(filename); kernel/util/dist_file_io.cpp, serial and - by parse "
+            "with FEAT_HAVE_MPI - the MPI implementation): the reader consumes exactly the sequence of blocks the writer emits (header, per-rank size words, common block, "
+            "process buffer): same order, byte counts (taken from the header words / size words the writer stored), access mode and guards; the header words the reader "
+            "requires are the ones written; the file-size word covers the bytes written; breaks for: a common block whose size is not a multiple of an alignment the "
+            "writer pads to, any non-empty common block when the two payloads are exchanged", 12)
     ck.rule("E7.load-state-reset", "every data member of CheckpointControl that the load path fills and restore_object reads is reset by clear_input() or overwritten "
             "unconditionally on every load (operator[]= / insert_or_assign / resize, not emplace / insert), so that no state of an earlier load survives; breaks for: one "
             "CheckpointControl reading two checkpoints in a row (load(A), clear_input(), load(B)) with an identifier at different offsets", 2)
@@ -5563,6 +5864,14 @@ def run(tier):
     facts = featlib.extract("tu/c05_io.cpp", files=FILES)
     ck.tu(facts)
     run_on(ck, facts, True)
+    # combined checkpoint files: the serial implementation as compiled here, and the MPI implementation by parse (-DFEAT_HAVE_MPI)
+    dio = featlib.repo_path("kernel/util/dist_file_io.cpp")
+    for variant, mpi in (("serial", False), ("mpi", True)):
+        fio = featlib.extract(dio, files=featlib.repo_path("kernel/util/dist_file_io"), mpi=mpi)
+        ck.tu(fio)
+        for e in fio.errors_in_repo():
+            ck.incomplete("E12.combined-file", "%s: front-end error %s:%d %s" % (variant, rel(e["file"]), e["line"], e["msg"]))
+        check_combined_files(ck, fio, variant)
     if thorough:
         # the same driver with the roles of the wide and the narrow types exchanged: float / uint32 containers serialised as double / uint64
         extra = ("-DC05_DT=float", "-DC05_IT=std::uint32_t", "-DC05_DT2=double", "-DC05_IT2=std::uint64_t")
@@ -5576,7 +5885,7 @@ def run(tier):
             "_serialized_size are interpreted abstractly (positions as symbolic sums over the array counts, typed buffer views, alignment steps) on all four compression branches and the "
             "writer's and reader's header-slot bindings and segment sequences are compared; byte accounting of the allocation and of the length word; FileMode vocabularies and "
             "(tag, DT, IT) triples of all container classes; magic words and banners of the meta containers; index kinds and coverage of row_ptr in the MatrixMarket reader; record "
-            "layout of CheckpointControl and of the meta containers' checkpoint recursion; Pack case tables, loops and argument roles; emptiness guards of IO routines; scalar row / column coordinates of the entry lines of the coordinate text modes against the extents announced in the size line. "
+            "layout of CheckpointControl and of the meta containers' checkpoint recursion; Pack case tables, loops and argument roles; emptiness guards of IO routines; block sequence of DistFileIO::write_combined / read_combined (serial and, parsed with FEAT_HAVE_MPI, the MPI implementation); scalar row / column coordinates of the entry lines of the coordinate text modes against the extents announced in the size line. "
             "Not decided: bit identity and printed precision of values, behaviour of zlib/zfp, duplicate or malformed entries in text files, entry lines of the array (dense) text modes beyond the counter split, "
-            "file-name arithmetic of nested meta matrices beyond the instantiated block counts, MPI file IO (DistFileIO).")
+            "file-name arithmetic of nested meta matrices beyond the instantiated block counts, the other DistFileIO routines (read/write_common, _sequence, _ordered) and the MPI library's own semantics of shared / ordered file pointers.")
     return ck.finish(expl)
